@@ -37,10 +37,12 @@ property while
 
 Deliver, in the directory {wt}/_seed/ (create it):
   - patch.diff : `git -C {wt} diff -- distance3d > {wt}/_seed/patch.diff` (the change, relative to the worktree's HEAD)
-  - demo.py    : a small stand-alone program (no pytest needed) that exits 0 on the ORIGINAL code and exits 1 (printing what went wrong)
+  - demo.py    : a small stand-alone program (no pytest needed) that exits 0 on the ORIGINAL code (current HEAD of the worktree) and exits 1 (printing what went wrong)
                  WITH your change; run it as `PYTHONPATH={wt} timeout 600 /venv/bin/python {wt}/_seed/demo.py`. It must test the
                  property as stated above (against an independent oracle / brute force / mathematical fact), not an implementation detail.
   - meta.json  : {{"property": "{p['id']}", "summary": "...what you changed...", "needs": "...what is needed for it to manifest...",
                   "ran": "...commands you ran and what they showed (tests before/after, demo before/after)..."}}
-Verify all three claims yourself (tests before = tests after; demo passes on `git stash`ed tree and fails with the change) and leave
-the change APPLIED in the worktree. Reply with a 5-line summary.""")
+Verify all three claims yourself (tests before = tests after; demo passes on the original tree and fails with the change) and leave
+the change APPLIED in the worktree. IMPORTANT: do NOT use `git stash` (the stash is shared between all worktrees of this repository and other
+people work in parallel in sibling worktrees): to get back to the original, save your change with `git -C {wt} diff -- distance3d > /tmp/{p['id']}_change.diff`,
+run `git -C {wt} checkout -- distance3d`, and re-apply with `git -C {wt} apply /tmp/{p['id']}_change.diff`. Reply with a 5-line summary.""")
